@@ -39,8 +39,8 @@ extern "C" int LLVMFuzzerTestOneInput(const uint8_t* data, size_t size) {
   account(tok, e);
   vf::witness(tok);
   // context chosen by the bytes after the number, so that it is part of what the fuzzer explores
-  int ctx = n < size ? data[n] % 6 : 1;
+  int ctx = n < size ? data[n] % 7 : 1;
   judge_single<su::PoolDoc>(tok, ctx, e);
-  if (n + 1 < size && (data[n + 1] & 1)) judge_single<su::SimpleDoc>(tok, (ctx + 1) % 6, e);
+  if (n + 1 < size && (data[n + 1] & 1)) judge_single<su::SimpleDoc>(tok, (ctx + 1) % 7, e);
   return 0;
 }
